@@ -12,7 +12,7 @@ fn is_sym(a: &[f64], n: usize) -> bool {
 }
 
 fn emit_for(t: &mut TraceOut, a: &[f64], n: usize, cls: &str, spd: bool) {
-    let am = Matrix { data: Vector::new(a.to_vec()), nrows: n, ncols: n };
+    let am = mk(Vector::new(a.to_vec()), n, n);
     let aj = projs(a, 1);
     // LU: slice level and Matrix level
     let s = guard(|| lu(a));
@@ -25,7 +25,7 @@ fn emit_for(t: &mut TraceOut, a: &[f64], n: usize, cls: &str, spd: bool) {
             for e in [-600i32, 560] {
                 let f = 2f64.powi(e);
                 let a2: Vec<f64> = a.iter().map(|v| v * f).collect();
-                let am2 = Matrix { data: Vector::new(a2.clone()), nrows: n, ncols: n };
+                let am2 = mk(Vector::new(a2.clone()), n, n);
                 let want: Vec<f64> = lus.iter().enumerate().map(|(q, v)| if q / n > q % n { *v } else { v * f }).collect();
                 let s2 = guard(|| lu(&a2));
                 let m2 = guard(|| am2.lu());
@@ -63,7 +63,7 @@ fn emit_for(t: &mut TraceOut, a: &[f64], n: usize, cls: &str, spd: bool) {
             if let Some(ls) = &cs {
                 for e in [-40i32, 30, -300, 280] {
                     let a2: Vec<f64> = a.iter().map(|v| v * 2f64.powi(2 * e)).collect();
-                    let am2 = Matrix { data: Vector::new(a2.clone()), nrows: n, ncols: n };
+                    let am2 = mk(Vector::new(a2.clone()), n, n);
                     let c2 = guard(|| cholesky(&a2));
                     let m2 = guard(|| am2.cholesky());
                     let want: Vec<f64> = ls.iter().map(|v| v * 2f64.powi(e)).collect();
@@ -91,8 +91,8 @@ fn tri_events(t: &mut TraceOut, rng: &mut Lcg, n: usize) {
     let x: Vec<f64> = (0..n).map(|_| rng.range(-5, 5) as f64 * 2.0).collect();
     let bl = matmul(&l, &x, n, n, false, false);
     let bu = matmul(&u, &x, n, n, false, false);
-    let lm = Matrix { data: Vector::new(l.clone()), nrows: n, ncols: n };
-    let um = Matrix { data: Vector::new(u.clone()), nrows: n, ncols: n };
+    let lm = mk(Vector::new(l.clone()), n, n);
+    let um = mk(Vector::new(u.clone()), n, n);
     let runs: Vec<(&str, &Vec<f64>, &Vec<f64>, Option<Vec<f64>>)> = vec![
         ("forward_substitution (slice)", &l, &bl, guard(|| forward_substitution(&l, &bl))),
         ("Matrix::forward_substitution", &l, &bl, guard(|| lm.forward_substitution(&bl).to_vec())),
@@ -108,7 +108,7 @@ fn tri_events(t: &mut TraceOut, rng: &mut Lcg, n: usize) {
     // lu_solve / cholesky_solve at slice and Matrix level: A = L L^T (SPD, integer), b = A x
     let a = matmul(&l, &u, n, n, false, false);
     let b = matmul(&a, &x, n, n, false, false);
-    let am = Matrix { data: Vector::new(a.clone()), nrows: n, ncols: n };
+    let am = mk(Vector::new(a.clone()), n, n);
     let bv = Vector::new(b.clone());
     let runs2: Vec<(&str, Option<Vec<f64>>)> = vec![
         ("lu + lu_solve (slice)", guard(|| { let (f, p) = lu(&a); lu_solve(&f, &p, &b) })),
